@@ -151,7 +151,7 @@ def run(ck):
     # real `jug execute` processes on a file store, real SIGTERM / SIGINT (the only tier that goes through ExecuteCommand.run,
     # i.e. the SIGTERM handler registration and --no-check-environment)
     from . import execproc
-    execproc.signal_runs(ck, ck.n(6, 40))
+    execproc.signal_runs(ck, ck.n(7, 40))
     X.require_coverage(ck, ['process-run:term:in-function:delivered', 'process-run:int:in-function:delivered'], 'real signals inside a task function')
 
 
